@@ -158,11 +158,102 @@ def rebuild(model, hist):
     return ctx
 
 
-def explore(model, depth, seed=0, roots=None, max_evals=None):
+def clean_run(model, hist):
+    """Executes `hist` on a fresh object; -> canonical end state if every call succeeds and no call / intermediate state
+    violates anything (i.e. the history is one the enumerator would explore and extend), else None."""
+    saved = model.cover.copy()
+    try:
+        ctx = model.fresh()
+        for i, c in enumerate(hist):
+            before = model.canon(ctx)
+            out, ret = model.step(ctx, c, i)
+            if out != "ok" or model.check_call(ctx, c, i, ret, before) or model.check_state(ctx):
+                return None
+        return model.canon(ctx)
+    finally:
+        model.cover.clear()
+        model.cover.update(saved)
+
+
+def reproduces_cleanly(model, hist, rule, memo):
+    """True iff all calls of `hist` but the last execute cleanly (no violation) and the last one shows `rule`."""
+    k = (hist, rule)
+    if k in memo:
+        return memo[k]
+    saved = model.cover.copy()
+    res = False
+    try:
+        ctx = model.fresh()
+        ok = True
+        for i, c in enumerate(hist[:-1]):
+            before = model.canon(ctx)
+            out, ret = model.step(ctx, c, i)
+            if out != "ok" or model.check_call(ctx, c, i, ret, before) or model.check_state(ctx):
+                ok = False
+                break
+        if ok:
+            i, c = len(hist) - 1, hist[-1]
+            before = model.canon(ctx)
+            try:
+                out, ret = model.step(ctx, c, i)
+            except (IndexError, KeyError):          # a positional call (name of entry k) that lost its target
+                out = None
+            if out == "ok":
+                v = model.check_call(ctx, c, i, ret, before) + model.check_state(ctx)
+            elif out == "rejected":
+                v = model.check_reject(ctx, c, i, before, model.canon(ctx))
+            else:
+                v = []
+            res = any(x["rule"] == rule for x in v)
+    except (IndexError, KeyError):
+        res = False
+    finally:
+        model.cover.clear()
+        model.cover.update(saved)
+    if len(memo) < 200000:
+        memo[k] = res
+    return res
+
+
+def is_minimal(model, hist, rule, memo):
+    """A violating history is reported only if dropping any one of its earlier calls loses the violation (the shorter
+    history is itself enumerated and reported by the configuration that owns its first call)."""
+    for i in range(len(hist) - 1):
+        if reproduces_cleanly(model, hist[:i] + hist[i + 1:], rule, memo):
+            return False
+    return True
+
+
+def owned_by_earlier_configuration(model, hist, canon, root_index, lo):
+    """Verified-commutation reduction between the configurations that split the space by first call: the state reached
+    by `hist` is left to an earlier configuration (first call with index < lo) iff moving one later call of `hist` to
+    the front gives a history that REALLY executes cleanly to the same canonical state.  Sound under the assumption BFS
+    de-duplication already makes (the canonical state determines the future): the configuration holding the smallest
+    first call from which the state is reachable never finds such a permutation for the state or any of its ancestors,
+    so it reaches and expands it."""
+    for j in range(1, len(hist)):
+        idx = root_index.get(hist[j])
+        if idx is None or idx >= lo:
+            continue
+        if clean_run(model, (hist[j],) + hist[:j] + hist[j + 1:]) == canon:
+            return True
+    return False
+
+
+def explore(model, depth, seed=0, roots=None, max_evals=None, owner=None):
     """Breadth-first over call histories of length <= depth; histories are de-duplicated by the canonical state they
     lead to; every history is re-executed from scratch on a fresh object.  `roots` restricts the FIRST call (that is how
-    the space is split over the process pool)."""
+    the space is split over the process pool); owner = (all root calls, index of this configuration's first root)
+    enables the reduction of owned_by_earlier_configuration for states that would be extended."""
     X = Exploration()
+    root_index = {c: i for i, c in enumerate(owner[0])} if owner else None
+    memo = {}
+
+    def report(viol, hist):
+        for v in viol:
+            X.cover["violating_histories"] += 1
+            if is_minimal(model, hist, v["rule"], memo):
+                X.add_violation(model, v, hist)
     ctx0 = model.fresh()
     c0 = model.canon(ctx0)
     X.seen.add(digest(model.key, c0))
@@ -195,9 +286,11 @@ def explore(model, depth, seed=0, roots=None, max_evals=None):
                     if new:
                         X.seen.add(dg)
                         viol = viol + model.check_state(ctx)
-                    for v in viol:
-                        X.add_violation(model, v, h2)
+                    report(viol, h2)
                     if new and not viol:          # a violating history is reported, not extended
+                        if owner and d + 1 < depth and owned_by_earlier_configuration(model, h2, after, root_index, owner[1]):
+                            X.cover["states_left_to_an_earlier_configuration"] += 1
+                            continue
                         nxt.append((h2, model.info(ctx)))
                         if X.sample is None or len(h2) > len(X.sample["history"]):
                             X.sample = dict(history=[model.jcall(c) for c in h2], state=model.jstate(ctx))
@@ -206,8 +299,7 @@ def explore(model, depth, seed=0, roots=None, max_evals=None):
                     if after != before:
                         X.cover["rejections_leaving_residue"] += 1
                         X.notes.setdefault("residue", dict(history=[model.jcall(c) for c in h2]))
-                    for v in model.check_reject(ctx, call, len(hist), before, after):
-                        X.add_violation(model, v, h2)
+                    report(model.check_reject(ctx, call, len(hist), before, after), h2)
                 else:
                     X.notes.setdefault(out, dict(history=[model.jcall(c) for c in h2]))
             if X.cap_hit:
